@@ -862,8 +862,12 @@ class _Exporter:
                 return f"{__}{name} = np.random.rand({shape}).astype(np.{np_name})"
             if np_dtype.kind in "iub":  # integer types, BOOL
                 return f"{__}{name} = np.random.randint(0, 2, size=({shape},)).astype(np.{np_name})"
-            raise NotImplementedError(
-                f"Unable to generate random initializer for data type {value.data_type}."
+            # No random generator for the other types (BFLOAT16, FLOAT8*, STRING, ...): zeros.
+            size = int(np.prod(value.dims))
+            zero = '""' if value.data_type == TensorProto.STRING else "0"
+            return (
+                f'{__}{name} = make_tensor("{name}", {value.data_type}, '
+                f"dims=[{shape}], vals=[{zero}] * {size})"
             )
 
         random_initializer_values = "\n".join(
